@@ -328,6 +328,20 @@ func udistReplay(in io.Reader, raw bool, args []string) (*Summary, error) {
 					wantP = new(big.Rat).SetFrac(big.NewInt(mc.Cnt[tu]), den)
 				}
 				sum.Checks++
+				// just below the grid point (one float, 1e-12, 1e-10): still the value of the previous grid point
+				if tu >= 0 && tu <= top+1 {
+					wantB := new(big.Rat)
+					if tu-1 >= 0 && tu-1 <= top {
+						wantB.SetFrac(big.NewInt(mc.LE[tu-1]), den)
+					} else if tu-1 > top {
+						wantB.SetInt64(1)
+					}
+					for _, x := range []float64{math.Nextafter(u, math.Inf(-1)), u - 1e-12, u - 1e-10} {
+						if got := d.CDF(x); !closeRat(got, wantB, 1e-12, 1e-9) {
+							sum.viol("CDF-below-grid", c, "T=%v: CDF(%.17g)=%.12g want %.12g (the value below the grid point %v)", d.T, x, got, rf(wantB), u)
+						}
+					}
+				}
 				for _, off := range []float64{0, 0.25, 0.49} {
 					got := d.CDF(u + off)
 					if !closeRat(got, wantC, 1e-12, 1e-9) {
